@@ -59,6 +59,8 @@ THEOREMS = [
     "Verif.C06.scan_program_shows_windows",
     "Verif.C06.selecting_program_pixel_time",
     "Verif.C06.scan_program_pixel_time",
+    "Verif.C06.crop_then_downsample",
+    "Verif.C06.flip_then_crop",
 ]
 RULE = (
     "kymographs and scans built from generated info waves (P<=5 pixels, <=6 lines/frames, k<=3 samples per pixel, "
@@ -66,12 +68,18 @@ RULE = (
     "<=3 (thorough) operations. Kymograph alphabet: time slices with bounds on/around every line start and stop "
     "(±1 ns, None), crop_by_distance with bounds that are multiples of 1/64 of the (dyadic) pixel size incl. "
     "negative / empty / beyond the end, flip, downsampled_by (time and position factors 1..3), calibrate_to_kbp. "
+    "Also kymo[item] as the user writes it: bounds None / integer timestamps / time strings (plain, decimal, composite, "
+    "odd spacing, malformed) counted from the start or back from the stop, on and 1 ns beside line starts, stepped slices "
+    "and scalars; start/stop of every view are observed. "
     "Scan alphabet: integer frame indices (negative, out of range), frame slices, spatial crops via __getitem__ and "
-    "crop_by_pixels, timestamp-based frame slices; both fast-axis orders, single- and multi-frame. Exhaustive over "
+    "crop_by_pixels, timestamp-based frame slices, scan[item] as the user writes it (frame bounds as index / timestamp / "
+    "time string, 0-2 spatial slices, refused items: steps, scalar spatial items, floats, lists); both fast-axis orders, "
+    "single- and multi-frame; start/stop of every view are observed. Exhaustive over "
     "the alphabet for length<=2 on fixed small objects, seeded random beyond. Non-trivial: the program changes the "
     "image (not the identity), or ends in an empty object / documented error."
 )
 TRUSTED = [
+    "time strings are read by the Timeindex model of C01 (Verif.C01.parseTime, proved and tied there); C06 sends the string itself to model and code",
     "skimage.measure.block_reduce (used by downsampled_by) is assumed to compute block sums; checked by the oracle on every case",
     "pixel sizes are dyadic (125, 250, 500 nm) and crop bounds multiples of 1/64 so that lower/px is exact in floating point; other quotients are outside the tie",
 ]
